@@ -163,12 +163,34 @@ func (c20) Gen(seed uint64, tier string) *Scenario {
 		sc.Files = append(sc.Files, FileSpec{Name: fmt.Sprintf("priv%d.csv", p), Content: "id,n\n1,0\n2,0\n"})
 	}
 	uniq := 1000
+	// a third of the scenarios: each observer reads one of the tables only through a
+	// symbolic link (and never writes it): csvq keeps the view under the name given,
+	// so the link is a table of its own for the model, whose file is the target's
+	rl := Sub(seed, "c20-links")
+	useLinks := rl.Bool(0.33)
+	if useLinks {
+		for i := 0; i < ntab; i++ {
+			sc.Files = append(sc.Files, FileSpec{Name: fmt.Sprintf("l%d.csv", i), LinkTo: fmt.Sprintf("t%d.csv", i)})
+		}
+	}
 	for p := 0; p < nobs+nwr; p++ {
 		var ops []ObsOp
 		if p < nobs {
 			n := r.Range(3, 9)
+			linkTab := -1
+			if useLinks {
+				linkTab = rl.Intn(ntab)
+			}
 			for i := 0; i < n; i++ {
 				tb := r.Intn(ntab)
+				if tb == linkTab {
+					if rl.Bool(0.7) {
+						ops = append(ops, ObsOp{Kind: "sel", Table: tb + 10, Form: rl.Pick(0, 0, 0, 1, 2, 3, 4)})
+					} else {
+						ops = append(ops, ObsOp{Kind: "touch", Table: tb + 10, Form: rl.Pick(0, 1, 2, 3, 4, 5, 6, 7, 9, 10, 12, 13, 14, 15)})
+					}
+					continue
+				}
 				switch r.Intn(10) {
 				case 0, 1, 2:
 					ops = append(ops, ObsOp{Kind: "sel", Table: tb, Form: r.Pick(0, 0, 0, 1, 2, 3, 4)})
@@ -191,7 +213,11 @@ func (c20) Gen(seed uint64, tier string) *Scenario {
 					ops = append(ops, ObsOp{Kind: "rollback"})
 				}
 			}
-			ops = append(ops, ObsOp{Kind: "sel", Table: r.Intn(ntab)})
+			if last := r.Intn(ntab); last == linkTab {
+				ops = append(ops, ObsOp{Kind: "sel", Table: last + 10})
+			} else {
+				ops = append(ops, ObsOp{Kind: "sel", Table: last})
+			}
 		} else {
 			n := r.Range(1, 3)
 			for i := 0; i < n; i++ {
@@ -267,6 +293,9 @@ func (l *loadObserver) OnArrival(k *Kernel, g *G, a *arrival) {
 		return
 	}
 	path := a.arg[2:]
+	if rp, err := filepath.EvalSymlinks(path); err == nil {
+		path = rp // loads through a symbolic link are booked under the file they reach
+	}
 	b, err := os.ReadFile(path)
 	content := "<unreadable>"
 	if err == nil {
@@ -371,7 +400,7 @@ func (c20) Eval(t *testing.T, c *Case, dec func(int) *Decider) *Outcome {
 			return st[tb]
 		}
 		load := func(tb, i int, why string) (string, bool) {
-			key := fmt.Sprintf("%d/%s", pi, tableName(tb))
+			key := fmt.Sprintf("%d/%s", pi, tableName(tb%10))
 			l := lo.loads[key]
 			if next[tb] >= len(l) {
 				return "", false
@@ -419,6 +448,14 @@ func (c20) Eval(t *testing.T, c *Case, dec func(int) *Decider) *Outcome {
 						break ops
 					}
 					ts.snap, ts.changes = s, nil
+					if op.Table >= 10 {
+						// Through a symbolic link the lock files are created next to the link, so
+						// the lock-file protocol does not order this process with writers that use
+						// the real path (only flock does, on whatever inode was opened): what was
+						// loaded is not necessarily the file as it is now. The first read that is
+						// printed defines the snapshot; stability is still demanded.
+						ts.snap = "?"
+					}
 					if write {
 						ts.mode = "rw"
 					} else {
@@ -438,6 +475,9 @@ func (c20) Eval(t *testing.T, c *Case, dec func(int) *Decider) *Outcome {
 				}
 				if op.Kind == "ins" || op.Kind == "inc" {
 					ts.changes = append(ts.changes, op)
+				} else if executed && ts.snap == "?" {
+					ts.snap = printed[i]
+					o.Stats.probe("link-snapshot-from-first-read")
 				} else if executed {
 					if want := view(ts); printed[i] != want {
 						o.viol(prop, "read", "unstable-read:"+op.Kind+"-in-"+ts.mode,
